@@ -385,5 +385,5 @@ MANIFEST = {
     "text": "exploration: on thousands (quick) / 120 000 (thorough) generated calls the returned lines were valid for the platform, differed from the template only in the generated field, respected port_count and the range/eq policy and denoted exactly the requested set; refusals occurred only where the request is inexpressible",
     "note": "trusted: lib/refsem.py strict reader and interval algebra; neq templates on the generated side and non-tcp/udp templates are outside the property's quantifier; protocol requests use port-less templates",
 }
-MANIFEST["engine"] += " + atheris (coverage-guided twins of the Hypothesis sub-checks, fuzz/fuzz_hyp.py: 2 jobs x 8 s quick, 8 jobs x 200 s thorough)"
+MANIFEST["engine"] = MANIFEST.get("engine", "hypothesis") + " + atheris (coverage-guided twins of the Hypothesis sub-checks, fuzz/fuzz_hyp.py: 2 jobs x 8 s quick, 8 jobs x 200 s thorough)"
 MANIFEST["technique"] += "; plus coverage-guided fuzzing of the same strategies (atheris/libFuzzer mutates the byte stream Hypothesis decodes into cases, the same oracle runs inside the target, findings are re-judged outside it)"
